@@ -843,6 +843,7 @@ func main() {
 	}
 	protocol.SetMaxPackageLength(10485760)
 	tlsCloseScenarios()
+	historyScenarios()
 	for _, lim := range []int{64, 4096} {
 		appLimitScenario(lim)
 	}
